@@ -18,6 +18,9 @@ pub struct Item {
     pub class: &'static str,
     pub desc: String,
     pub has_resource: bool,
+    /// function over handles of one of two fixed imported resources: the resources are the same
+    /// on both sides of every pair of this family, so only the structure is compared
+    pub handles: bool,
 }
 
 pub struct UniverseWat {
@@ -39,21 +42,21 @@ impl Gen {
         self.n += 1;
         writeln!(self.wat, "  (type $d{k} {def})").unwrap();
         writeln!(self.wat, "  (import \"t{k}\" (type $t{k} (eq $d{k})))").unwrap();
-        self.items.push(Item { name: format!("t{k}"), class, desc: def.to_string(), has_resource: false });
+        self.items.push(Item { name: format!("t{k}"), class, desc: def.to_string(), has_resource: false, handles: false });
         format!("$t{k}")
     }
     fn alias(&mut self, class: &'static str, of: &str) -> String {
         let k = self.n;
         self.n += 1;
         writeln!(self.wat, "  (import \"t{k}\" (type $t{k} (eq {of})))").unwrap();
-        self.items.push(Item { name: format!("t{k}"), class, desc: format!("alias of {of}"), has_resource: false });
+        self.items.push(Item { name: format!("t{k}"), class, desc: format!("alias of {of}"), has_resource: false, handles: false });
         format!("$t{k}")
     }
     fn item(&mut self, class: &'static str, decl: &str, has_resource: bool) {
         let k = self.n;
         self.n += 1;
         writeln!(self.wat, "  (import \"t{k}\" {decl})").unwrap();
-        self.items.push(Item { name: format!("t{k}"), class, desc: decl.to_string(), has_resource });
+        self.items.push(Item { name: format!("t{k}"), class, desc: decl.to_string(), has_resource, handles: false });
     }
 }
 
@@ -270,6 +273,23 @@ pub fn build_universe(tier: Tier) -> UniverseWat {
     let nvals = g.n - first_val;
     // resources (excluded from the all-pairs claim, kept for panics/reflexivity)
     g.item("resource", "(type (sub resource))", true);
+    // functions over handles of two fixed resources: own vs borrow, which resource, position
+    writeln!(g.wat, "  (import \"res-a\" (type $ra (sub resource)))\n  (import \"res-b\" (type $rb (sub resource)))").unwrap();
+    for decl in [
+        "(func (param \"a\" (own $ra)))",
+        "(func (param \"a\" (borrow $ra)))",
+        "(func (param \"a\" (own $rb)))",
+        "(func (param \"a\" (borrow $rb)))",
+        "(func (result (own $ra)))",
+        "(func (result (own $rb)))",
+        "(func (param \"a\" (own $ra)) (result (own $ra)))",
+        "(func (param \"a\" (borrow $ra)) (result (own $ra)))",
+        "(func (param \"a\" (own $ra)) (param \"b\" (borrow $rb)))",
+        "(func (param \"a\" (own $rb)) (param \"b\" (borrow $ra)))",
+    ] {
+        g.item("func-over-handles", decl, true);
+        g.items.last_mut().unwrap().handles = true;
+    }
     for i in 0..nvals {
         writeln!(g.wat, "  (export \"v{i}\" (value {i}))").unwrap();
     }
@@ -370,7 +390,7 @@ pub fn run(args: &[String]) {
 
     // (1) all ordered pairs of resource-free items
     let idx: Vec<usize> = (0..n).filter(|i| !u.items[*i].has_resource).collect();
-    let results: Vec<(usize, usize, bool, Option<(String, String)>)> = idx
+    let mut results: Vec<(usize, usize, bool, Option<(String, String)>)> = idx
         .par_iter()
         .flat_map_iter(|&i| {
             let idx = &idx;
@@ -381,6 +401,14 @@ pub fn run(args: &[String]) {
             })
         })
         .collect();
+    // (1b) all ordered pairs inside the handle family (the same two resources on both sides)
+    let hidx: Vec<usize> = (0..n).filter(|i| u.items[*i].handles).collect();
+    for &i in &hidx {
+        for &j in &hidx {
+            let (want, v) = check_pair(i, j);
+            results.push((i, j, want, v));
+        }
+    }
     let mut accepted: BTreeSet<(usize, usize)> = BTreeSet::new();
     let mut pairs = 0u64;
     let mut offdiag = 0u64;
